@@ -3,10 +3,14 @@
 (* Bounded model of the COMPOSED specification, run forward.               *)
 (*                                                                         *)
 (* A program is written line by line while the FILE tag delivers it; the   *)
-(* composed machine (CondAsm x AddrBook x Diag x projected MacroProc)      *)
-(* executes every delivered statement: IF family, data / label / faulty    *)
-(* statements, ERROR / WARNING, ORG / PHASE / DEPHASE / SAVE / RESTORE,    *)
-(* one parameterless macro MM (definition, calls, EXITM), REPT n bodies.   *)
+(* composed machine (CondAsm x AddrBook x Diag x projected MacroProc x     *)
+(* symbol table) executes every delivered statement: IF family, data /     *)
+(* label / faulty statements, ERROR / WARNING, ORG / PHASE / DEPHASE /     *)
+(* SAVE / RESTORE, one parameterless macro MM (definition, calls, EXITM),  *)
+(* REPT n bodies, and the statements of the symbol table: a label LX, the  *)
+(* constant CX (EQU 1 / 2), the variable VX (SET 1 / 2), CX SET 3 (kinds   *)
+(* mixed), a reference DB VX, SECTION S1 / ENDSECTION [S1 | S2] / PUBLIC   *)
+(* LX, PUSHV / POPV of VX, ENUM EA,EB=5,EC / NEXTENUM ED,EE.               *)
 (* The forward step is written independently of StmtSucc (what does the    *)
 (* statement do) and TLC checks at every step                              *)
 (*   ForwardIsAllowed   the state reached is one StmtSucc allows for the   *)
@@ -20,6 +24,15 @@
 (*                      recorded (+ open constructs at the end)            *)
 (*   ImageIsData        every emitted byte belongs to a data statement     *)
 (*   ChainMirrorsCounts the REPT counters run parallel to the tag chain    *)
+(*   ConstantsKeepTheirValue  (declarative, from the manual: "EQU defines  *)
+(*                      constants which can not be modified again") the    *)
+(*                      ghost map "first value a constant got in this      *)
+(*                      pass" is what the table holds for it at every step *)
+(*   SkippedDefinesNothing  the table, the section stack and the PUSHV     *)
+(*                      stacks only move in steps that executed a selected *)
+(*                      statement outside a body being recorded            *)
+(*   VariableIsLastSetOrPopped  VX holds what the last executed SET / POPV *)
+(*                      gave it (ghost: LIFO list of pushed values)        *)
 (* AsCore_Gen adds the export for replay (program + predicted outcome).    *)
 (* Constants: MaxLen source lines, MaxSteps executed statements, Family /  *)
 (* BodyLen: shape of the programs (see NextSource).                        *)
@@ -29,6 +42,8 @@ EXTENDS AsCore
 CONSTANTS MaxLen, MaxSteps,
           Family,     \* "flat": every line from the whole alphabet;  "macro": MM MACRO, BodyLen body lines, ENDM, then
           BodyLen     \*          lines that call MM, open / close IFs and REPTs around the calls;
+                      \* "sym": every line from SymAlpha (symbol table statements + IF 0 / ENDIF / data);
+                      \* "all": Alpha and SymAlpha (simulation);
                       \* "directed": the programs of Directed (regression seeds: shapes that found something)
 
 VARIABLES prog,    \* source text so far
@@ -36,7 +51,7 @@ VARIABLES prog,    \* source text so far
           s,       \* [ca, ab, mp, cw, d]: composed state, the record StmtSucc works on
           cnt,     \* remaining iterations of the REPT tags, parallel to s.mp.tags (0 for other tags)
           oc,      \* counts of the REPT headers being recorded, parallel to s.mp.outs (0 for other output tags)
-          gh,      \* ghosts: [faulty, image, warns, fin, ok]
+          gh,      \* ghosts: [faulty, image, warns, fin, ok, consts, pushed, vx, moved]
           mode,    \* "run" | "done"
           dir      \* Family = "directed": which of the Directed programs is being read (else 0)
 vars == <<l, prog, rec, s, cnt, oc, gh, mode, dir>>
@@ -50,6 +65,10 @@ Alpha ==
    St("IF", 1), St("IF", 0), St("ELSE", 0), St("ENDIF", 0),
    St("ORG", 128), St("PHASE", 64), St("DEPHASE", 0), St("SAVE", 0), St("RESTORE", 0),
    St("MACRO", 0), St("ENDM", 0), St("CALL", 0), St("EXITM", 0), St("REPT", 0), St("REPT", 2)}
+SymAlpha ==
+  {St("LBX", 0), St("EQU", 1), St("EQU", 2), St("SET", 1), St("SET", 2), St("SETC", 3), St("USE", 0),
+   St("SECTION", 0), St("ENDSECTION", 0), St("ENDSECTION", 1), St("ENDSECTION", 2), St("PUBLIC", 0),
+   St("PUSHV", 0), St("POPV", 0), St("ENUM", 0), St("NEXTENUM", 0), St("IF", 0), St("ENDIF", 0), St("EMIT", 1)}
 
 Directed ==
   << <<St("MACRO", 0), St("SAVE", 0), St("RESTORE", 0), St("SAVE", 0), St("RESTORE", 0), St("ENDM", 0), St("CALL", 0), St("EMIT", 1)>>,
@@ -59,21 +78,98 @@ Directed ==
      <<St("PHASE", 64), St("MACRO", 0), St("LAB", 0), St("BAD", 0), St("ENDM", 0), St("CALL", 0), St("REPT", 2),
        St("CALL", 0), St("ENDM", 0), St("DEPHASE", 0), St("LAB", 0)>>,
      <<St("IF", 0), St("REPT", 2), St("EMIT", 1), St("ENDM", 0), St("EXITM", 0), St("CALL", 0), St("ELSE", 0),
-       St("SAVE", 0), St("UERR", 0), St("UWARN", 0)>> >>
+       St("SAVE", 0), St("UERR", 0), St("UWARN", 0)>>,
+     \* labels of a macro body are local to every expansion, EQU / SET in it are global (second call: double definition)
+     <<St("MACRO", 0), St("LBX", 0), St("EQU", 1), St("SET", 2), St("ENDM", 0), St("CALL", 0), St("CALL", 0), St("LBX", 0),
+       St("USE", 0)>>,
+     \* PUBLIC moves the label to the global level; the name is free again inside, taken outside
+     <<St("SECTION", 0), St("PUBLIC", 0), St("LBX", 0), St("LBX", 0), St("ENDSECTION", 1), St("LBX", 0)>>,
+     <<St("SECTION", 0), St("LBX", 0), St("EQU", 1), St("ENDSECTION", 2), St("ENDSECTION", 0), St("LBX", 0), St("EQU", 1),
+       St("SECTION", 0), St("SECTION", 0), St("LBX", 0), St("PUBLIC", 0)>>,
+     <<St("SET", 1), St("PUSHV", 0), St("SET", 2), St("USE", 0), St("PUSHV", 0), St("POPV", 0), St("POPV", 0), St("USE", 0),
+       St("POPV", 0), St("PUSHV", 0)>>,
+     \* ENUM inside a REPT body defines constants local to the iteration; NEXTENUM continues behind the last ENUM
+     <<St("REPT", 2), St("LBX", 0), St("ENUM", 0), St("ENDM", 0), St("ENUM", 0), St("NEXTENUM", 0), St("ENUM", 0)>>,
+     <<St("IF", 0), St("LBX", 0), St("EQU", 1), St("SECTION", 0), St("PUSHV", 0), St("ENUM", 0), St("ENDIF", 0), St("LBX", 0),
+       St("SECTION", 0), St("IF", 0), St("ENDSECTION", 0), St("ENDIF", 0), St("SETC", 3), St("EQU", 2)>>,
+     <<St("MACRO", 0), St("SECTION", 0), St("LBX", 0), St("ENDSECTION", 0), St("ENDM", 0), St("CALL", 0), St("CALL", 0)>>,
+     <<St("EQU", 1), St("SETC", 3), St("SET", 1), St("MACRO", 0), St("IF", 0), St("EQU", 2), St("ENDIF", 0), St("POPV", 0),
+       St("ENDM", 0), St("CALL", 0), St("PUSHV", 0)>> >>
 
 Opts == [werror |-> FALSE, maxerr |-> 0, suppw |-> FALSE, codeout |-> TRUE, throw |-> FALSE]
 NumGeneric == 1840     \* ELSEIF/ENDIF without IF
 NumExitm == 1805
 NumNoSave == 1450
+NumDoubleDef == 1000
+NumSymbolUndef == 1010
+NumDoubleSection == 1483
+NumMissingEndSect == 1485
+NumWrongEndSect == 1486
+NumNotInSection == 1487
+NumUndefdForward == 1488
+NumStackEmpty == 1530
+NumConstAsVar == 2030          \* ErrNum_ConstantRedefinedAsVariable
+NumVarAsConst == 2035          \* ErrNum_VariableRedefinedAsConstant
+NumStackNotEmpty == 230
 
 Tx(i) == rec[i]
 NoRecs == <<>>
 
 Init0 == [ca |-> CA!InitM, ab |-> [AB!InitB(1) EXCEPT !.used = [x \in AB!AllSegs |-> FALSE]],
-          mp |-> StartPass(InitMP, 1), cw |-> InitW(FALSE), d |-> DG!PassInit]
+          mp |-> StartPass(InitMP, 1), cw |-> InitW(FALSE), d |-> DG!PassInit, sy |-> InitSY, en |-> InitEN]
 Init == /\ l = 1 /\ prog = <<>> /\ rec = <<>> /\ s = Init0 /\ cnt = <<0>> /\ oc = <<>>
-        /\ gh = [faulty |-> 0, image |-> <<>>, warns |-> 0, fin |-> 0, ok |-> TRUE] /\ mode = "run"
+        /\ gh = [faulty |-> 0, image |-> <<>>, warns |-> 0, fin |-> 0, ok |-> TRUE, consts |-> {}, pushed |-> <<>>,
+                 vx |-> <<>>, moved |-> TRUE] /\ mode = "run"
         /\ dir \in (IF Family = "directed" THEN 1..Len(Directed) ELSE {0})
+
+\* ---- the symbol table as the manual describes it (forward side; written without Adder / EnterSymbol) ---------------
+IntV(v) == <<1, v, "">>
+\* sections enclosing the current position, innermost first, the global level last ("Local Symbols")
+FPath(sy) == <<sy.mom>> \o [k \in 1..Len(sy.stk) |-> sy.stk[k].h]
+\* a reference without qualifier: the innermost enclosing section that has the name
+FFind(sy, name) ==
+  LET P == FPath(sy)
+      C == {k \in 1..Len(P) : <<name, P[k]>> \in DOMAIN sy.tab}
+  IN IF C = {} THEN <<>> ELSE <<name, P[CHOOSE k \in C : \A j \in C : k <= j]>>
+\* a definition without qualifier goes to the current section - or where PUBLIC sent the name (the entry is used up)
+FPlace(sy, name) ==
+  IF sy.stk # <<>> /\ \E p \in sy.stk[1].pub : p.n = name THEN (CHOOSE p \in sy.stk[1].pub : p.n = name).d ELSE sy.mom
+FUsePub(sy, name) == IF sy.stk = <<>> THEN sy ELSE [sy EXCEPT !.stk[1].pub = {p \in @ : p.n # name}]
+DefRec(key, v, chg, out) ==
+  [k |-> "def", name |-> key[1], sect |-> key[2], t |-> 1, v |-> v, x |-> "", chg |-> chg, out |-> out]
+\* "EQU defines constants which can not be modified (by EQU) again, but SET permits the definition of variables, which
+\* can be modified during the assembly ... Trying to change a constant with SET will result in an error message":
+\* [sy, rec, err]
+FDef(sy, tree, key, v, chg) ==
+  LET t == IF tree = "loc" THEN sy.loc ELSE sy.tab
+      ne == [val |-> IntV(v), chg |-> chg, def |-> TRUE]
+      put(f) == IF tree = "loc" THEN [sy EXCEPT !.loc = f] ELSE [sy EXCEPT !.tab = f]
+  IN IF key \notin DOMAIN t THEN [sy |-> put(t @@ (key :> ne)), rec |-> DefRec(key, v, chg, "new"), err |-> 0]
+     ELSE IF t[key].def /\ ~t[key].chg /\ ~chg THEN [sy |-> sy, rec |-> DefRec(key, v, FALSE, "double"), err |-> NumDoubleDef]
+     ELSE IF t[key].def /\ t[key].chg # chg
+          THEN [sy |-> sy, rec |-> DefRec(key, v, chg, "mix"), err |-> IF t[key].chg THEN NumVarAsConst ELSE NumConstAsVar]
+     ELSE [sy |-> put([t EXCEPT ![key] = ne]), err |-> 0,
+           rec |-> DefRec(key, v, chg, IF t[key].val = IntV(v) THEN (IF t[key].def THEN "redef_same" ELSE "same")
+                                       ELSE (IF t[key].def THEN "redef_changed" ELSE "changed"))]
+\* one definition by the running statement: df = [n, v, chg, local]; local = labels and ENUM constants belong to the
+\* innermost expansion that opened a local symbol space ("Labels defined in macros always are regarded as being local")
+FDefine(st, sy, df) ==
+  LET ml == MomLoc(st.mp.tags)
+  IN IF df.local /\ ml # -1 THEN FDef(sy, "loc", <<df.n, ml>>, df.v, FALSE)
+     ELSE FDef(FUsePub(sy, df.n), "tab", <<df.n, FPlace(sy, df.n)>>, df.v, df.chg)
+RECURSIVE FDefs(_, _, _)
+\* acc = [sy, recs, errs]
+FDefs(st, dfs, acc) ==
+  IF dfs = <<>> THEN acc
+  ELSE LET r == FDefine(st, acc.sy, Head(dfs))
+       IN FDefs(st, Tail(dfs), [sy |-> r.sy, recs |-> Append(acc.recs, r.rec),
+                                errs |-> IF r.err = 0 THEN acc.errs ELSE Append(acc.errs, r.err)])
+Df(n, v, chg, local) == [n |-> n, v |-> v, chg |-> chg, local |-> local]
+LabelName(x) == IF x.k = "LAB" THEN "L" \o ToString(x.id) ELSE IF x.k = "LBX" THEN "LX"
+                ELSE IF x.k \in {"EQU", "SETC"} THEN "CX" ELSE IF x.k = "SET" THEN "VX" ELSE ""
+SectName(a) == IF a = 2 THEN "S2" ELSE "S1"
+DefStack == "DEFSTACK"
+NoQual == [t |-> "none"]
 
 \* ---- source grammar (what the FILE tag may deliver next) ---------------------------------------------------------
 HasMacroOut(outs) == \E i \in 1..Len(outs) : outs[i].kind = "MACRO"
@@ -81,21 +177,26 @@ DefinedOrDefining == "MM" \in DOMAIN s.mp.macros \/ \E i \in 1..Len(prog) : prog
 BodyAlpha == {St("EMIT", 1), St("LAB", 0), St("BAD", 0), St("EXITM", 0), St("IF", 1), St("IF", 0), St("ENDIF", 0)}
 AfterAlpha == {St("CALL", 0), St("IF", 1), St("IF", 0), St("ENDIF", 0), St("EMIT", 1), St("REPT", 2), St("ENDM", 0),
                St("PHASE", 64)}
+FamilyAlpha == CASE Family = "macro" -> AfterAlpha [] Family = "sym" -> SymAlpha [] Family = "all" -> Alpha \cup SymAlpha
+                 [] OTHER -> Alpha
 NextSource ==
   IF Family = "directed" THEN (IF Len(prog) < Len(Directed[dir]) THEN {Directed[dir][Len(prog) + 1]} ELSE {NONE})
   ELSE IF Family = "macro" /\ Len(prog) <= BodyLen + 1
   THEN (IF prog = <<>> THEN {St("MACRO", 0)} ELSE IF Len(prog) <= BodyLen THEN BodyAlpha ELSE {St("ENDM", 0)})
   ELSE IF Len(prog) >= MaxLen
   THEN (IF s.mp.outs # <<>> THEN {St("ENDM", 0)} ELSE {NONE})           \* bodies are closed, then the file ends
-  ELSE {x \in (IF Family = "macro" THEN AfterAlpha ELSE Alpha) :
+  ELSE {x \in FamilyAlpha :
           /\ (x.k = "MACRO" => (~DefinedOrDefining /\ s.mp.outs = <<>>))  \* one definition of MM, at top level
           /\ (x.k = "CALL" => ~HasMacroOut(s.mp.outs))                    \* no recursion
-          /\ (x.k = "REPT" => Len(s.mp.outs) < 2)}
+          /\ (x.k = "REPT" => Len(s.mp.outs) < 2)
+          \* a reference is only written where VX is visible and the line is executed at once: the model has ONE pass
+          /\ (x.k = "USE" => (s.mp.outs = <<>> /\ FFind(s.sy, "VX") # <<>>))}
        \cup (IF s.mp.outs = <<>> /\ prog # <<>> THEN {NONE} ELSE {})
 
 \* ---- the record a hook would write for the step from s to n ---------------------------------------------------
 OpName(x) == CASE x.k = "EMIT" -> "DB" [] x.k = "LAB" -> "DB" [] x.k = "BAD" -> "BOGUS" [] x.k = "UERR" -> "ERROR"
-               [] x.k = "UWARN" -> "WARNING" [] x.k = "CALL" -> "MM" [] x.k = "NONE" -> "" [] OTHER -> x.k
+               [] x.k = "UWARN" -> "WARNING" [] x.k = "CALL" -> "MM" [] x.k = "NONE" -> ""
+               [] x.k \in {"LBX", "USE"} -> "DB" [] x.k = "SETC" -> "SET" [] OTHER -> x.k
 IsCall(x) == x.k = "CALL" /\ "MM" \in DOMAIN s.mp.macros
 CaClass(x, recpost) ==
   IF recpost THEN "OTHER"
@@ -105,28 +206,117 @@ CbClass(x, n, wm, wasif) ==
   IF ~n.ca.ifasm \/ n.mp.outs # <<>> \/ wm \/ wasif THEN "OTHER"
   ELSE IF x.k \in {"ORG", "PHASE", "DEPHASE", "SAVE", "RESTORE"} THEN x.k ELSE "OTHER"
 McClass(x) == IF x.k \in {"MACRO", "REPT", "ENDM", "EXITM"} THEN x.k ELSE "OTHER"
+\* class and tokenised arguments for the symbol table, as the tokeniser of the harness renders them
+ScClass(x, n, wm, wasif) ==
+  IF ~n.ca.ifasm \/ n.mp.outs # <<>> \/ wm \/ wasif THEN "OTHER"
+  ELSE CASE x.k = "EQU" -> "EQU" [] x.k \in {"SET", "SETC"} -> "SET"
+         [] x.k \in {"SECTION", "ENDSECTION", "ENUM", "NEXTENUM", "PUSHV", "POPV"} -> x.k
+         [] x.k = "PUBLIC" -> IF s.sy.stk = <<>> THEN "OTHER" ELSE "PUBLIC"
+         [] OTHER -> "OTHER"
+ScArgs(x, sc) ==
+  CASE sc = "SECTION" -> <<"S1">>
+    [] sc = "ENDSECTION" -> <<IF x.a = 0 THEN "" ELSE SectName(x.a)>>
+    [] sc = "PUBLIC" -> <<[n |-> "LX", q |-> NoQual]>>
+    [] sc \in {"PUSHV", "POPV"} -> <<"", <<[n |-> "VX", q |-> NoQual]>>>>
+    [] sc = "ENUM" -> <<FALSE, TRUE, FALSE>>
+    [] sc = "NEXTENUM" -> <<FALSE, FALSE>>
+    [] OTHER -> <<>>
 LogOf(stk) == [i \in 1..Len(stk) |-> <<stk[i].st, IF stk[i].found THEN 1 ELSE 0, IF stk[i].save THEN 1 ELSE 0>>]
-Obs(x, dp, em, n, dg, sd, ch, len) ==
+Obs(x, dp, em, n, dg, sy, ch, len) ==
   LET recpre == s.mp.outs # <<>>
       wm     == recpre \/ x.k \in {"MACRO", "REPT", "EXITM"} \/ IsCall(x)
       wasif  == ~recpre /\ x.k \in {"IF", "ELSE", "ENDIF"}
+      sc     == ScClass(x, n, wm, wasif)
   IN [pre |-> <<>>, nl |-> FALSE, tx |-> x, dp |-> dp, em |-> em, op |-> OpName(x),
-      argc |-> IF x.k \in {"IF", "REPT", "ORG", "PHASE", "EMIT", "LAB", "UERR", "UWARN"} THEN 1 ELSE 0,
-      lab |-> x.k = "LAB", wm |-> wm, ca |-> CaClass(x, n.mp.outs # <<>>), cb |-> CbClass(x, n, wm, wasif),
-      mc |-> McClass(x), nm |-> IF x.k = "MACRO" THEN "MM" ELSE "",
+      argc |-> CASE x.k \in {"IF", "REPT", "ORG", "PHASE", "EMIT", "LAB", "UERR", "UWARN", "LBX", "USE", "EQU", "SET",
+                              "SETC", "SECTION", "PUBLIC"} -> 1
+                 [] x.k \in {"PUSHV", "POPV", "NEXTENUM"} -> 2 [] x.k = "ENUM" -> 3
+                 [] x.k = "ENDSECTION" -> IF x.a = 0 THEN 0 ELSE 1 [] OTHER -> 0,
+      lab |-> LabelName(x) # "", wm |-> wm, ca |-> CaClass(x, n.mp.outs # <<>>), cb |-> CbClass(x, n, wm, wasif),
+      mc |-> McClass(x), nm |-> IF x.k = "MACRO" THEN "MM" ELSE "", gsym |-> FALSE,
       ifasm |-> n.ca.ifasm, stk |-> LogOf(n.ca.stk), rec |-> n.mp.outs # <<>>, tagd |-> Len(n.mp.tags),
       errs |-> n.d.err, seg |-> n.ab.act, pc |-> AB!Load(n.ab), ph |-> n.ab.ph[n.ab.act],
       phd |-> Len(n.ab.phStk[n.ab.act]), svd |-> Len(n.ab.saveStk), std |-> Len(n.ab.stStk), len |-> len,
-      cpu |-> 81, dg |-> dg, sd |-> sd, ch |-> ch]
+      cpu |-> 81, dg |-> dg, ch |-> ch, sy |-> sy, psy |-> <<>>, lbn |-> LabelName(x), q |-> FALSE,
+      sed |-> Len(n.sy.stk), sc |-> sc, sa |-> ScArgs(x, sc)]
 
-Diag1(d, num) == <<[num |-> num, cls |-> "error", errs |-> d.err, warns |-> d.warn]>>
+DiagRec(d, num) == [num |-> num, cls |-> DG!Classify(Opts, num), errs |-> d.err, warns |-> d.warn]
+Diag1(d, num) == <<DiagRec(d, num)>>
 Raise(d, num) == DG!WrXErrorPos(Opts, d, num)
+RECURSIVE RaiseSeq(_, _, _)
+\* the messages nums in this order: [d, dg]
+RaiseSeq(d, nums, dg) ==
+  IF nums = <<>> THEN [d |-> d, dg |-> dg] ELSE RaiseSeq(Raise(d, Head(nums)), Tail(nums), Append(dg, DiagRec(d, Head(nums))))
 
 \* ---- forward semantics of one delivered statement x (written from the manual / the C code, not from StmtSucc) ----
-\* result: [n (state after), dg, sd, ch, len, faulty, bytes];  oc0 = counts of the open REPT headers
-Res(n, dg, sd, ch, len, faulty, bytes) == [n |-> n, dg |-> dg, sd |-> sd, ch |-> ch, len |-> len, faulty |-> faulty, bytes |-> bytes]
+\* result: [n (state after), dg, sy (symbol records), ch, len, faulty (errors raised), bytes];  oc0 = counts of the
+\* open REPT headers
+Res(n, dg, sy, ch, len, faulty, bytes) == [n |-> n, dg |-> dg, sy |-> sy, ch |-> ch, len |-> len, faulty |-> faulty, bytes |-> bytes]
 Quiet(n) == Res(n, <<>>, <<>>, <<>>, 0, 0, <<>>)
 Faulty(st, num) == Res([st EXCEPT !.d = Raise(st.d, num)], Diag1(st.d, num), <<>>, <<>>, 0, 1, <<>>)
+\* a statement of the symbol table: new table, its records, the errors it raised (no code)
+SymDone(st, nsy, recs, errs) ==
+  LET r == RaiseSeq(st.d, errs, <<>>) IN Res([st EXCEPT !.sy = nsy, !.d = r.d], r.dg, recs, <<>>, 0, Len(errs), <<>>)
+\* LabelHandle, then the data statement: the byte is emitted even if the label was refused (LabelSurvivesError the
+\* other way round: the label's own error does not stop the instruction)
+DataLine(st, x, nb, val) ==
+  LET lb == IF LabelName(x) = "" THEN [sy |-> st.sy, recs |-> <<>>, errs |-> <<>>]
+            ELSE FDefs(st, <<Df(LabelName(x), AB!Exec(st.ab), FALSE, TRUE)>>, [sy |-> st.sy, recs |-> <<>>, errs |-> <<>>])
+      r  == RaiseSeq(st.d, lb.errs, <<>>)
+      a0 == AB!Load(st.ab)
+  IN Res([st EXCEPT !.ab = AB!MarkUsed(AB!Advance(st.ab, nb)), !.sy = lb.sy, !.d = r.d], r.dg, lb.recs,
+         <<[k |-> "E", seg |-> st.ab.act, addr |-> a0, n |-> nb, g |-> 1]>>, nb, Len(lb.errs),
+         [j \in 1..nb |-> <<a0 + j - 1, val, x.id>>])
+
+ExecSym(st, x) ==
+  LET sy  == st.sy
+      acc == [sy |-> sy, recs |-> <<>>, errs |-> <<>>]
+      vx  == FFind(sy, "VX")
+  IN
+  CASE x.k = "EQU"  -> LET r == FDefs(st, <<Df("CX", x.a, FALSE, FALSE)>>, acc) IN SymDone(st, r.sy, r.recs, r.errs)
+    [] x.k = "SET"  -> LET r == FDefs(st, <<Df("VX", x.a, TRUE, FALSE)>>, acc) IN SymDone(st, r.sy, r.recs, r.errs)
+    [] x.k = "SETC" -> LET r == FDefs(st, <<Df("CX", x.a, TRUE, FALSE)>>, acc) IN SymDone(st, r.sy, r.recs, r.errs)
+    [] x.k = "USE"  ->                                       \* DB VX: the byte is the value the table holds
+         IF vx = <<>> THEN Faulty(st, NumSymbolUndef)        \* (not generated: the grammar writes USE where VX is visible)
+         ELSE LET en == sy.tab[vx]
+                  r  == DataLine(st, x, 1, en.val[2])
+              IN [r EXCEPT !.sy = <<[k |-> "ref", name |-> "VX", sect |-> vx[2], t |-> 1, v |-> en.val[2], x |-> "",
+                                     chg |-> en.chg, out |-> "defined"]>>]
+    [] x.k = "SECTION" ->                                    \* "not more than one section of a name on one level"
+         LET same == {i \in 1..Len(sy.sects) : sy.sects[i].name = "S1" /\ sy.sects[i].parent = sy.mom}
+         IN IF same # {} THEN SymDone(st, sy, <<>>, <<NumDoubleSection>>)
+            ELSE SymDone(st, [sy EXCEPT !.sects = Append(@, [name |-> "S1", parent |-> sy.mom]),
+                                        !.stk = <<[h |-> sy.mom, fwd |-> {}, pub |-> {}, glb |-> {}]>> \o @,
+                                        !.mom = Len(sy.sects)], <<>>, <<>>)
+    [] x.k = "ENDSECTION" ->
+         IF sy.stk = <<>> THEN SymDone(st, sy, <<>>, <<NumNotInSection>>)
+         ELSE IF x.a # 0 /\ sy.sects[sy.mom + 1].name # SectName(x.a) THEN SymDone(st, sy, <<>>, <<NumWrongEndSect>>)
+         ELSE SymDone(st, [sy EXCEPT !.stk = Tail(@), !.mom = sy.stk[1].h], <<>>,         \* a PUBLIC never used
+                      [i \in 1..Cardinality(sy.stk[1].pub) |-> NumUndefdForward])
+    [] x.k = "PUBLIC" ->
+         IF sy.stk = <<>> THEN Faulty(st, DG!NumUnknownInstr)    \* only known inside a section
+         ELSE SymDone(st, [sy EXCEPT !.stk[1].pub = {p \in @ : p.n # "LX"} \cup {[n |-> "LX", d |-> SY!GLOB]}], <<>>, <<>>)
+    [] x.k = "PUSHV" ->
+         IF vx = <<>> THEN SymDone(st, sy, <<>>, <<NumSymbolUndef>>)
+         ELSE LET old == IF DefStack \in DOMAIN sy.stacks THEN sy.stacks[DefStack] ELSE <<>>
+                  new == <<sy.tab[vx].val>> \o old
+              IN SymDone(st, [sy EXCEPT !.stacks = IF DefStack \in DOMAIN @ THEN [@ EXCEPT ![DefStack] = new]
+                                                   ELSE @ @@ (DefStack :> new)], <<>>, <<>>)
+    [] x.k = "POPV" ->
+         IF vx = <<>> THEN SymDone(st, sy, <<>>, <<NumSymbolUndef>>)
+         ELSE IF DefStack \notin DOMAIN sy.stacks THEN SymDone(st, sy, <<>>, <<NumStackEmpty>>)
+         ELSE LET stck == sy.stacks[DefStack]
+                  nst  == IF Len(stck) = 1 THEN [y \in (DOMAIN sy.stacks) \ {DefStack} |-> sy.stacks[y]]
+                          ELSE [sy.stacks EXCEPT ![DefStack] = Tail(stck)]
+              IN IF ~sy.tab[vx].chg /\ sy.tab[vx].val # stck[1]             \* "an EQU constant can never change"
+                 THEN SymDone(st, [sy EXCEPT !.stacks = nst], <<>>, <<NumConstAsVar>>)
+                 ELSE SymDone(st, [sy EXCEPT !.stacks = nst, !.tab[vx].val = stck[1]], <<>>, <<>>)
+    [] x.k = "ENUM" ->                                       \* "sequential values starting at 0 ... explicit values"
+         LET r == FDefs(st, <<Df("EA", 0, FALSE, TRUE), Df("EB", 5, FALSE, TRUE), Df("EC", 6, FALSE, TRUE)>>, acc)
+         IN SymDone([st EXCEPT !.en.cur = 7], r.sy, r.recs, r.errs)
+    [] OTHER ->                                              \* NEXTENUM: "the internal counter will not be reset"
+         LET r == FDefs(st, <<Df("ED", st.en.cur, FALSE, TRUE), Df("EE", st.en.cur + 1, FALSE, TRUE)>>, acc)
+         IN SymDone([st EXCEPT !.en.cur = @ + 2], r.sy, r.recs, r.errs)
 
 Exec1(st, x, pos, oc0) ==
   LET asm  == st.ca.ifasm
@@ -149,8 +339,8 @@ Exec1(st, x, pos, oc0) ==
          [] x.k = "ENDIF" -> LET c == CA!DoEndIf(st.ca) IN
                              IF c.errs > st.ca.errs THEN Faulty([st EXCEPT !.ca = [c EXCEPT !.errs = 0]], NumGeneric)
                              ELSE Quiet([st EXCEPT !.ca = c])
-         [] x.k = "MACRO" -> Quiet([st EXCEPT !.mp = PushOut(@, NewOut("MACRO", pos, Len(st.ca.stk), "MM"))])
-         [] x.k = "REPT"  -> Quiet([st EXCEPT !.mp = PushOut(@, IF asm THEN NewOut("REPT", pos, Len(st.ca.stk), "") ELSE WaitOut)])
+         [] x.k = "MACRO" -> Quiet([st EXCEPT !.mp = PushOut(@, NewOut("MACRO", pos, Len(st.ca.stk), "MM", FALSE))])
+         [] x.k = "REPT"  -> Quiet([st EXCEPT !.mp = PushOut(@, IF asm THEN NewOut("REPT", pos, Len(st.ca.stk), "", FALSE) ELSE WaitOut)])
          [] x.k = "EXITM" -> IF ~top.mac THEN Faulty(st, NumExitm)            \* reported even in a skipped branch
                              ELSE IF ~asm THEN Quiet(st)
                              ELSE Quiet([st EXCEPT !.mp.tags = SetTop(@, [top EXCEPT !.emp = TRUE]),
@@ -162,19 +352,14 @@ Exec1(st, x, pos, oc0) ==
          [] x.k \in {"BAD", "ENDM", "CALL"} -> Faulty(st, DG!NumUnknownInstr)
          [] x.k = "UERR"  -> Res([st EXCEPT !.d = DG!UserERROR(Opts, st.d)], <<>>, <<>>, <<>>, 0, 1, <<>>)
          [] x.k = "UWARN" -> Quiet([st EXCEPT !.d = DG!UserWARNING(Opts, st.d)])
-         [] x.k \in {"EMIT", "LAB"} ->
-              LET nb == IF x.k = "LAB" THEN 1 ELSE x.a
-                  a0 == AB!Load(st.ab)
-              IN Res([st EXCEPT !.ab = AB!MarkUsed(AB!Advance(st.ab, nb))], <<>>,
-                     IF x.k = "LAB" THEN <<[v |-> AB!Exec(st.ab), chg |-> 0, int |-> TRUE, big |-> FALSE]>> ELSE <<>>,
-                     <<[k |-> "E", seg |-> st.ab.act, addr |-> a0, n |-> nb, g |-> 1]>>, nb, 0,
-                     [j \in 1..nb |-> <<a0 + j - 1, x.id>>])
+         [] x.k \in {"EMIT", "LAB", "LBX"} -> DataLine(st, x, IF x.k = "EMIT" THEN x.a ELSE 1, x.id)
          [] x.k = "ORG"     -> Quiet([st EXCEPT !.ab = AB!Org(st.ab, x.a)])
          [] x.k = "PHASE"   -> Quiet([st EXCEPT !.ab = AB!Phase(st.ab, x.a)])
          [] x.k = "DEPHASE" -> Quiet([st EXCEPT !.ab = AB!Dephase(st.ab)])
          [] x.k = "SAVE"    -> Quiet([st EXCEPT !.ab = AB!Save(st.ab)])
          [] x.k = "RESTORE" -> IF AB!CanRestore(st.ab) THEN Quiet([st EXCEPT !.ab = AB!Restore(st.ab)])
                                ELSE Faulty(st, NumNoSave)
+         [] OTHER           -> ExecSym(st, x)
 
 \* ---- one step: GetNextLine, then Produce_Code --------------------------------------------------------------------
 RECURSIVE Popped(_)
@@ -186,15 +371,18 @@ Step ==
          tags == PopEmpty(s.mp.tags)
          c0   == SubSeq(cnt, k + 1, Len(cnt))
      IN IF tags = <<>>
-        THEN \* InputEnd: AssembleFile_ExitPass reports what is still open
-             LET d1 == IF s.ca.stk # <<>> THEN Raise(s.d, DG!NumMissEndif) ELSE s.d
-                 d2 == IF s.ab.saveStk # <<>> THEN Raise(d1, DG!NumNoRestoreFrame) ELSE d1
-                 tl == (IF s.ca.stk # <<>> THEN Diag1(s.d, DG!NumMissEndif) ELSE <<>>)
-                       \o (IF s.ab.saveStk # <<>> THEN Diag1(d1, DG!NumNoRestoreFrame) ELSE <<>>)
+        THEN \* InputEnd: AssembleFile_ExitPass reports what is still open (ClearStacks first: a warning per stack)
+             LET nums == (IF DOMAIN s.sy.stacks # {} THEN <<NumStackNotEmpty>> ELSE <<>>)
+                         \o (IF s.ca.stk # <<>> THEN <<DG!NumMissEndif>> ELSE <<>>)
+                         \o (IF s.ab.saveStk # <<>> THEN <<DG!NumNoRestoreFrame>> ELSE <<>>)
+                         \o (IF s.sy.stk # <<>> THEN <<NumMissingEndSect>> ELSE <<>>)
+                 r    == RaiseSeq(s.d, nums, <<>>)
              IN /\ mode' = "done"
-                /\ s' = [s EXCEPT !.d = d2, !.mp.tags = tags]
-                /\ gh' = [gh EXCEPT !.fin = (IF s.ca.stk # <<>> THEN 1 ELSE 0) + (IF s.ab.saveStk # <<>> THEN 1 ELSE 0),
-                                    !.ok = @ /\ OpenConstructsAreReported(s.ca, s.ab, tl) /\ FoldDiags(Opts, s.d, tl, 1) = <<TRUE, d2>>]
+                /\ s' = [s EXCEPT !.d = r.d, !.mp.tags = tags]
+                /\ gh' = [gh EXCEPT !.fin = (IF s.ca.stk # <<>> THEN 1 ELSE 0) + (IF s.ab.saveStk # <<>> THEN 1 ELSE 0)
+                                             + (IF s.sy.stk # <<>> THEN 1 ELSE 0),
+                                    !.ok = @ /\ OpenConstructsAreReported(s.ca, s.ab, s.sy, r.dg)
+                                             /\ FoldDiags(Opts, s.d, r.dg, 1) = <<TRUE, r.d>>]
                 /\ cnt' = c0 /\ UNCHANGED <<l, prog, rec, oc>>
         ELSE LET t == Head(tags) IN
              \E x \in (IF t.kind = "FILE" THEN {Line(y, IF y = NONE THEN 0 ELSE Len(prog) + 1) : y \in NextSource}
@@ -204,14 +392,31 @@ Step ==
                             [] OTHER            -> t.z = t.n /\ c0[1] = 1
                    c1  == IF t.kind = "REPT" /\ t.z = t.n THEN <<c0[1] - 1>> \o Tail(c0) ELSE c0
                    ln  == [nl |-> FALSE, tx |-> x, dp |-> Len(tags), em |-> em]
-                   nl1 == NextLine(Tx, s.mp.tags, ln)
+                   nl1 == NextLine(Tx, [tags |-> s.mp.tags, lc |-> s.mp.lc], ln)
                IN /\ nl1 # {}
                   /\ LET tg == CHOOSE y \in nl1 : TRUE
-                         st == [s EXCEPT !.mp.tags = tg]
+                         st == [s EXCEPT !.mp.tags = tg.tags, !.mp.lc = tg.lc]
                          r  == Exec1(st, x, l, oc)
                          n  == r.n
-                         e  == Obs(x, Len(tags), em, n, r.dg, r.sd, r.ch, r.len)
-                         pushed == Len(n.mp.tags) > Len(tg)
+                         e  == Obs(x, Len(tags), em, n, r.dg, r.sy, r.ch, r.len)
+                         pushed == Len(n.mp.tags) > Len(tg.tags)
+                         live == st.ca.ifasm /\ st.mp.outs = <<>>         \* selected and not being recorded
+                         \* ghosts of the declarative side
+                         newc == {[tree |-> IF InChain(o.sect, LocChain(st.mp.tags)) /\ <<o.name, o.sect>> \in DOMAIN n.sy.loc
+                                                  /\ <<o.name, o.sect>> \notin DOMAIN st.sy.loc THEN "loc" ELSE "tab",
+                                   key |-> <<o.name, o.sect>>, v |-> o.v] :
+                                    o \in {r.sy[i] : i \in {j \in 1..Len(r.sy) : r.sy[j].k = "def" /\ ~r.sy[j].chg
+                                                                               /\ r.sy[j].out = "new"}}}
+                         vxk  == FFind(st.sy, "VX")
+                         quietx == r.dg = <<>>
+                         pushed2 == IF x.k = "PUSHV" /\ live /\ quietx THEN <<st.sy.tab[vxk].val[2]>> \o gh.pushed
+                                    ELSE IF x.k = "POPV" /\ live /\ vxk # <<>> /\ gh.pushed # <<>> THEN Tail(gh.pushed)
+                                    ELSE gh.pushed
+                         vx2  == IF x.k = "SET" /\ live /\ quietx
+                                 THEN [y \in DOMAIN gh.vx \cup {<<"VX", st.sy.mom>>} |->
+                                         IF y = <<"VX", st.sy.mom>> THEN x.a ELSE gh.vx[y]]
+                                 ELSE IF x.k = "POPV" /\ live /\ quietx THEN [gh.vx EXCEPT ![vxk] = Head(gh.pushed)]
+                                 ELSE gh.vx
                      IN /\ s' = n
                         /\ cnt' = IF pushed THEN <<IF Head(n.mp.tags).kind = "REPT" THEN oc[1] ELSE 0>> \o c1 ELSE c1
                         /\ oc' = IF Len(n.mp.outs) > Len(s.mp.outs) THEN <<IF x.k = "REPT" /\ s.ca.ifasm THEN x.a ELSE 0>> \o oc
@@ -220,7 +425,9 @@ Step ==
                         /\ prog' = IF t.kind = "FILE" /\ x.k # "NONE" THEN Append(prog, x) ELSE prog
                         /\ gh' = [gh EXCEPT !.faulty = @ + r.faulty, !.image = @ \o r.bytes,
                                             !.ok = @ /\ Cardinality(nl1) = 1
-                                                     /\ n \in StmtSucc(Tx, NoRecs, Opts, s, e)]
+                                                     /\ n \in StmtSucc(Tx, NoRecs, Opts, s, e),
+                                            !.consts = @ \cup newc, !.pushed = pushed2, !.vx = vx2,
+                                            !.moved = @ /\ ((n.sy # st.sy \/ n.en # st.en) => live)]
                         /\ l' = l + 1 /\ mode' = mode
 
 Next == Step \/ (mode = "done" /\ UNCHANGED vars)
@@ -230,6 +437,18 @@ ForwardIsAllowed == gh.ok
 ErrCountIsFaultyExecuted == s.d.err = gh.faulty + gh.fin
 ChainMirrorsCounts == mode = "run" => (Len(cnt) = Len(s.mp.tags) /\ Len(oc) = Len(s.mp.outs))
 \* every emitted byte comes from a data statement of the source text
-ImageIsData == \A i \in 1..Len(gh.image) : gh.image[i][2] \in 1..Len(prog) /\ prog[gh.image[i][2]].k \in {"EMIT", "LAB"}
+ImageIsData == \A i \in 1..Len(gh.image) : gh.image[i][3] \in 1..Len(prog)
+                                           /\ prog[gh.image[i][3]].k \in {"EMIT", "LAB", "LBX", "USE"}
 KeptIffClean == mode = "done" => (s.d.err = 0) = (gh.faulty + gh.fin = 0)
+\* "EQU defines constants which can not be modified again": whatever was entered as a constant (label, EQU, ENUM)
+\* is in the table with the value it got then - no later EQU, SET, POPV, label or expansion has changed it
+ConstantsKeepTheirValue ==
+  \A c \in gh.consts : LET f == IF c.tree = "loc" THEN s.sy.loc ELSE s.sy.tab
+                        IN c.key \in DOMAIN f /\ f[c.key].val = IntV(c.v) /\ ~f[c.key].chg
+\* the table, the section stack, the PUSHV stacks and ENUM's counter only move in statements that are selected and not
+\* being recorded (C12: a statement in a branch that is not selected has NO effect)
+SkippedDefinesNothing == gh.moved
+\* a variable holds what the last executed SET gave it - or the POPV that took the value pushed last (LIFO)
+VariableIsLastSetOrPopped ==
+  \A y \in DOMAIN gh.vx : y \in DOMAIN s.sy.tab /\ s.sy.tab[y].val = IntV(gh.vx[y]) /\ s.sy.tab[y].chg
 =============================================================================
